@@ -78,6 +78,24 @@ CLAIMED = {
         text="Theorems C11_*: poll issues at most clock/waitpid(WNOHANG)/clock, no sleep, no error; wait_timeout(d) says 'still running' no earlier than d and no later than d + 4D + O (D, O bounds on call duration and oversleep), reports an exit at any instant te within max(te,start) + 100 ms + 4D + O with the true status, returns at once when the status is known, sleeps a positive time between status checks, and makes at most 8 + ceil(d/100ms) status checks -- for every d and exit time.  The real wait_timeout/poll run against the virtual clock of the extracted model; sleep arguments, call counts and return instants are compared.",
         note="Trusted: as C09; wall-clock meaning of the virtual clock rests on the OS honouring sleeps (std::thread::sleep sleeps at least the request).  Waits of days/weeks on a live child are covered by the theorem only (22 million iterations are not executed).",
         design="5/C11"),
+    "C06": dict(
+        engine="E2-logged-real-spawns",
+        technique="Coq proof (structural: prepare is the function from a request to the execve arguments; environment de-duplication proved equal to 'keep the last binding of each name' by induction, getenv on the block = last binding; NUL refusal by case analysis) + real launches of a self-reporting stub with the logged chdir/execve arguments judged by the extracted model (cross-checked by vm_compute) + hook differential of format_env",
+        text="Theorems C06_*: for every argument vector, executable, environment list, cwd over arbitrary byte strings (unbounded lengths and counts): what reaches execve is the vector byte for byte (argv[0] stays the program name under an executable override), the block is exactly one name=value entry per distinct name carrying its last value (getenv on it = last binding; nothing else), None means inherit, cwd as given; a NUL in any argument, the executable, any name, any surviving value or the cwd is refused with EINVAL and issues no exec, and a NUL-free request is never refused; in the launch model the refusal precedes the fork, and exactly the requested chdir/setgid/setuid/setpgid are applied, the group before the user; the Windows block builder is proved case-insensitive last-wins, double-NUL terminated.",
+        note="Trusted: Coq kernel; extraction (ExtrOcamlBasic only) cross-checked by vm_compute on small cases; realdrive interposers and the stub's self-report; that the kernel passes execve's vectors to the image unchanged (cross-checked).  A NUL inside a value that a later duplicate name shadows is dropped with its entry by the code and is therefore not refused: the theorem says 'surviving value', the generators do not plant NUL in shadowed values.  setuid/setgid to other users needs the check to run as root (it does here); otherwise only the own ids are used.",
+        design="5/C06"),
+    "C15": dict(
+        engine="E2-logged-real-spawns",
+        technique="Coq proof (induction over the PATH string for the tokenizer, over the candidate list for the exec loop, file system as a universally quantified oracle) + real launches in generated directory layouts (executable / non-executable / directory / garbage / missing / over-long candidates) with the logged execve path sequence and outcome judged by the extracted model + hook differential of split_path",
+        text="Theorems C15_*: split_path = the non-empty pieces between colons, in order; a slash-free name is tried as <entry>/<name> for exactly those entries in PATH order, a name with a slash is tried as given and alone; for every file-system oracle the execve calls are the candidates up to and including the first startable one, which is the image that runs, and when none is startable every candidate was tried, an error comes back (ENOENT when there was no candidate, otherwise the last candidate's errno) and no image runs; an explicitly named executable goes through the same function.",
+        note="Trusted: as C06; the file-system oracle of the harness is validated against the kernel's errno for every path tried.  Unreadable directories cannot be produced when the check runs as root and are not exercised.",
+        design="5/C15"),
+    "C17": dict(
+        engine="E2-logged-real-spawns",
+        technique="Coq proof (arithmetic on the (len, capacity) model of Vec<u8>: the buffer reserved before the fork fits every candidate, threaded through the whole loop by induction) + allocator probe armed in the forked child of real launches (global allocator of the harness binary) + hook differential of the reserved capacity and the longest assembled candidate",
+        text="Theorems C17_*: for every command and PATH, every <dir>/<cmd>\\0 the loop assembles fits the capacity reserved before the fork, so no extend/push of the whole loop reallocates (the buffer is threaded from one candidate to the next).  That the remaining child-side calls do not allocate is not a theorem: it is measured on every E2 launch by the allocator probe (command lengths, PATH shapes, cwd lengths around 384 and ~3.8 KB, argument/environment sizes, all stream configurations, successful, failing and fault-injected exec).",
+        note="Partial by nature: the theorem covers the one growing object of the child branch; the absence of allocation in dup2/chdir/sigmask/signal/set*id/_exit wrappers and in the error report is an observation of the probe, not a proof.  Deallocations in the child (dropping the prepared vectors before _exit, an Rc<File>) are reported in the evidence and not counted: the property speaks of allocation.",
+        design="5/C17"),
     "C18": dict(
         engine="E2-logged-real-spawns",
         technique="Coq: exhaustive evaluation of the child's effects list (mask emptied, SIGPIPE default, then identity calls, then exec) over all configurations; real spawns under 64+ random signal masks and both SIGPIPE dispositions with the child's inherited state captured before the Rust runtime starts",
@@ -122,7 +140,7 @@ def main():
              "kind_free_text": "real spawns on the real kernel; every relevant libc call of parent and forked child is logged (and failed on request) by interposers, allocations in the child are logged; call sequences are compared with the Gallina model"},
             {"name": "E1-kernel-in-the-loop", "path": "harness/src/bin/simdrive.rs + ocaml/src/spsim.ml", "serves_properties": ["C01", "C02", "C03", "C04", "C09", "C10", "C11"],
              "kind_free_text": "the real library runs on fake descriptors, a virtual clock and a virtual child served live by the extracted Coq kernel model; the library model is stepped in lockstep and compared call by call"},
-            {"name": "E3-pure", "path": "harness/src/bin/puredrive.rs", "serves_properties": ["C19", "C20"],
+            {"name": "E3-pure", "path": "harness/src/bin/puredrive.rs", "serves_properties": ["C06", "C15", "C17", "C19", "C20"],
              "kind_free_text": "pure differential: real function vs Gallina model evaluated by vm_compute"},
         ],
         "checks": checks,
